@@ -20,6 +20,11 @@ def _get_list(plugin):
     return list(plugin.on_api_get(None)["excluded_regions"])
 
 
+def _true_list(plugin):
+    """The current region list itself (anchor: ExcludeRegionState.excludedRegions), as plain data."""
+    return [r.toDict() for r in plugin.state.excludedRegions]
+
+
 def _member(w, d, px, py):
     if d["type"] == "RectangularRegion":
         return in_rect(w, d["x1"], d["y1"], d["x2"], d["y2"], px, py)
@@ -85,9 +90,21 @@ def api_step(w, which="C13", R=2, events=True):
         plugin.state.addRegion(reg)
         existing_ids.append(rid)
     if active:
-        plugin.on_event(Events.PRINT_STARTED, None)
+        pu.fire(plugin, "PRINT_STARTED")
+        # things that happen during a print and must not open a loophole: pause/resume, a settings update
+        pre = w.choose(4, "during-print")
+        if pre == 1:
+            pu.fire(plugin, "PRINT_PAUSED")
+        elif pre == 2:
+            pu.fire(plugin, "PRINT_PAUSED")
+            pu.fire(plugin, "PRINT_RESUMED")
+        elif pre == 3:
+            may_shrink = not may_shrink
+            plugin._verif_values["mayShrinkRegionsWhilePrinting"] = may_shrink
+            pu.fire(plugin, "SETTINGS_UPDATED")
+        w.cover("during-print-%d" % pre)
     plugin._plugin_manager.messages[:] = []
-    before = _get_list(plugin)
+    before = _true_list(plugin)
     w.check(len(set(d["id"] for d in before)) == len(before), "pre-ids-unique")
 
     # ---- one step -----------------------------------------------------------------------------
@@ -129,12 +146,15 @@ def api_step(w, which="C13", R=2, events=True):
             w.fail("api-raises", "%s raised %r" % (desc, ex))
             return
     else:
-        ev = [Events.FILE_SELECTED, Events.PRINT_DONE, Events.PRINT_CANCELLED][step - len(COMMANDS)]
-        desc = "event %s clearAfter=%s active=%s n=%d" % (ev, clear_after, active, n)
+        ev = ["FILE_SELECTED", "PRINT_DONE", "PRINT_CANCELLED"][step - len(COMMANDS)]
+        f = [pu.FILE_A, pu.FILE_SD][w.choose(2, "file")] if ev == "FILE_SELECTED" else None
+        desc = "event %s %s clearAfter=%s active=%s n=%d" % (ev, (f or {}).get("origin"), clear_after, active, n)
         w.note("request", desc)
-        plugin.on_event(ev, None)
+        # a GET before the event (clients poll): a cached response must not survive the change
+        _get_list(plugin)
+        pu.fire(plugin, ev, f)
 
-    after = _get_list(plugin)
+    after = _true_list(plugin)
     msgs = plugin._plugin_manager.messages
     error = _is_error(res)
     unchanged = _same_list(before, after)
@@ -178,4 +198,4 @@ def api_step(w, which="C13", R=2, events=True):
         # zero or several notifications: only allowed when the list did not change
         w.check(alg.not_(changed), "change-notified-exactly-once",
                 "%s -> %d notifications for a change" % (desc, len(msgs)))
-    w.check(_same_list(after, _get_list(plugin)), "get-response-stable", desc)
+    w.check(_same_list(after, _get_list(plugin)), "get-response-equals-current-list", desc)
